@@ -19,6 +19,14 @@
 //	      receives a 1200-byte Initial datagram carrying this token from <addr>; handleInitialImpl's decision is
 //	      observed through GetConfigForClient(ClientInfo.AddrVerified) / the Retry packet written
 //	      => proceed av=<0|1> | retry | drop | now=<ns>
+//	cinit <kid> <hex|-> <addr> <wantsRetry> <maxTokenAge_ns> <handshakeIdle_ns>
+//	      like `initial`, but the connection is let through (GetConfigForClient accepts) and the REAL newConnection runs;
+//	      what handleInitialImpl handed to it and how the new connection's sent packet handler starts out is observed by
+//	      the hook quic.VerifAmpOnNewConn (lim: SendMode answers SendNone before a byte is credited; val: handler state)
+//	      => conn av=<0|1> odcid=<hex> rscid=<hex|none> rtt=<ns> lim=<0|1> val=<0|1> | retry | drop | now=<ns>
+//	decode2 <kid> <hexA|-|@tid> <hexB|-|@tid>   DecodeToken(A), then DecodeToken(B), then the FIRST result is printed again
+//	      (a *Token handed out by DecodeToken belongs to the caller: handleInitialImpl keeps pointers into it)
+//	      => A <decoded> ; B <decoded> ; A2 <decoded>
 //	dkey <inst>            the token key a real quic.Transport WITHOUT TokenGeneratorKey chose for itself (instances live for the
 //	                       whole case)                                            => zero=<0|1> dup=<0|1>  (all-zero? equal to another key?)
 //	dissue <tid> <inst> <addr>   instance <inst> (VerifySourceAddress on) receives a token-less Initial from <addr> and answers with
@@ -182,8 +190,8 @@ var idles = []int64{int64(5 * time.Second), int64(time.Second), int64(100 * time
 // GenOp: a share of the generated `check` operations is shown to a real server instead (`initial`)
 func (rn *runner) GenOp(r *vh.Rand, i int) string {
 	op := rn.genOp(r, i)
-	if f := strings.Fields(op); len(f) == 6 && f[0] == "check" && !strings.HasPrefix(f[2], "@") && !rn.mayPanic(f[2]) && r.Chance(10) {
-		return fmt.Sprintf("initial %s %s %s %d %s %s", f[1], f[2], f[3], r.Intn(2), f[4], f[5])
+	if f := strings.Fields(op); len(f) == 6 && f[0] == "check" && !strings.HasPrefix(f[2], "@") && !rn.mayPanic(f[2]) && r.Chance(15) {
+		return fmt.Sprintf("%s %s %s %s %d %s %s", []string{"initial", "cinit", "cinit"}[r.Intn(3)], f[1], f[2], f[3], r.Intn(2), f[4], f[5])
 	}
 	return op
 }
@@ -208,6 +216,21 @@ func (rn *runner) genOp(r *vh.Rand, i int) string {
 	}
 	if len(rn.toks) == 0 || r.Chance(12) {
 		return rn.genIssue(r)
+	}
+	if r.Chance(7) {
+		// two decodes in a row by the same generator; mostly two different well-formed tokens under its key
+		a, b := rn.toks[r.Intn(len(rn.toks))], rn.toks[r.Intn(len(rn.toks))]
+		if !a.panics && !b.panics {
+			kid := a.kid
+			if r.Chance(10) {
+				kid = b.kid
+			}
+			tb := hx(b.tok)
+			if r.Chance(10) {
+				tb = hx(r.Bytes(r.Intn(60)))
+			}
+			return fmt.Sprintf("decode2 %d %s %s", kid, hx(a.tok), tb)
+		}
 	}
 	t := rn.toks[r.Intn(len(rn.toks))]
 	age, idle := maxAges[r.Intn(len(maxAges))], idles[r.Intn(len(idles))]
@@ -355,6 +378,9 @@ func (rn *runner) remember(id int, t issued) {
 func now() string { return fmt.Sprintf(" | now=%d", time.Now().UnixNano()) }
 
 func (rn *runner) AfterPanic(op string) string {
+	if strings.HasPrefix(op, "decode2") {
+		return "PANIC"
+	}
 	if strings.HasPrefix(op, "check") {
 		return "PANIC valid=0" + now()
 	}
@@ -443,6 +469,37 @@ func (rn *runner) Exec(op string) string {
 		}
 		t, err := rn.gens[kid].DecodeToken(tokb)
 		return fmtTok(t, err, true)
+	case "decode2":
+		if len(f) != 4 {
+			return "bad-op"
+		}
+		kid, ok := kidOf(f[1])
+		ta, oka := rn.tokenArg(f[2])
+		tb, okb := rn.tokenArg(f[3])
+		if !ok {
+			return "bad-op"
+		}
+		if !oka || !okb {
+			return "skip"
+		}
+		a, errA := rn.gens[kid].DecodeToken(ta)
+		first := fmtTok(a, errA, true)
+		b, errB := rn.gens[kid].DecodeToken(tb)
+		return "A " + first + " ; B " + fmtTok(b, errB, true) + " ; A2 " + fmtTok(a, errA, true)
+	case "cinit":
+		if len(f) != 7 {
+			return "bad-op"
+		}
+		kid, ok := kidOf(f[1])
+		addr := parseAddr(f[3])
+		tokb, ok2 := rn.tokenArg(f[2])
+		if !ok || addr == nil {
+			return "bad-op"
+		}
+		if !ok2 || rn.mayPanic(hx(tokb)) {
+			return "skip"
+		}
+		return rn.realInitialOpt(kid, tokb, addr, f[4] == "1", time.Duration(vh.Atoi64(f[5])), time.Duration(vh.Atoi64(f[6])), true) + now()
 	case "check":
 		if len(f) != 6 {
 			return "bad-op"
@@ -686,6 +743,11 @@ func initialDatagram(tok []byte) []byte {
 // realInitial shows one Initial datagram with the given token to a real server and reports what
 // handleInitialImpl decided.
 func (rn *runner) realInitial(kid int, tok []byte, from net.Addr, wantsRetry bool, maxTokenAge, idle time.Duration) string {
+	return rn.realInitialOpt(kid, tok, from, wantsRetry, maxTokenAge, idle, false)
+}
+
+// realInitialOpt: with accept the connection is created by the real newConnection and observed by the hook
+func (rn *runner) realInitialOpt(kid int, tok []byte, from net.Addr, wantsRetry bool, maxTokenAge, idle time.Duration, accept bool) string {
 	rt := &capRouter{}
 	sc := simnet.NewSimConn(srvAddr, rt)
 	key := rn.keys[kid]
@@ -701,11 +763,19 @@ func (rn *runner) realInitial(kid int, tok []byte, from net.Addr, wantsRetry boo
 			mu.Lock()
 			called, verified = true, ci.AddrVerified
 			mu.Unlock()
+			if accept {
+				return nil, nil
+			}
 			return nil, fmt.Errorf("verif: refuse")
 		},
 	})
 	if err != nil {
 		return "E:listen"
+	}
+	var conns []quic.VerifAmpNewConn
+	if accept {
+		quic.VerifAmpOnNewConn(func(c quic.VerifAmpNewConn) { mu.Lock(); conns = append(conns, c); mu.Unlock() })
+		defer quic.VerifAmpOnNewConn(nil)
 	}
 	v := protocol.Version1
 	hdr := &wire.ExtendedHeader{
@@ -728,6 +798,26 @@ func (rn *runner) realInitial(kid int, tok []byte, from net.Addr, wantsRetry boo
 	mu.Lock()
 	if called {
 		res = fmt.Sprintf("proceed av=%d", map[bool]int{false: 0, true: 1}[verified])
+	}
+	if accept && called {
+		b01 := map[bool]int{false: 0, true: 1}
+		switch len(conns) {
+		case 0:
+			res = "noconn"
+		case 1:
+			c := conns[0]
+			rs := "none"
+			if c.HasRetrySrc {
+				rs = hx(c.RetrySrcConnID.Bytes())
+			}
+			res = fmt.Sprintf("conn av=%d odcid=%s rscid=%s rtt=%d lim=%d val=%d", b01[c.ClientAddrVerified], hx(c.OrigDestConnID.Bytes()), rs,
+				int64(c.RTT), b01[c.Limited], b01[c.Validated])
+			if c.ClientAddrVerified != verified {
+				res += " clientinfo=" + fmt.Sprint(b01[verified])
+			}
+		default:
+			res = fmt.Sprintf("conns=%d", len(conns))
+		}
 	}
 	mu.Unlock()
 	rt.mu.Lock()
